@@ -145,6 +145,20 @@ def write_replay(pid, name, payload):
 def try_replay(pid, ob):
     """Function-level replay of a refuted obligation on the real code (contracts/replay.py)."""
     try:
+        if ob.get('kind') == 'lemma':
+            # lemma obligations are re-derived from the tree being replayed on: same obligation
+            # name refuted again with a witness that replays on the real pattern / method
+            from contracts import registry
+            for key, (fn, props) in registry.lemmas().items():
+                if pid not in props:
+                    continue
+                for r in fn(REPO).get('results', []):
+                    if r['name'] == ob['name']:
+                        nr = dict(r.get('native_replay') or {})
+                        nr['reproduced'] = r['verdict'] == 'refuted' and bool(nr.get('reproduced', True))
+                        nr['verdict_on_this_tree'] = r['verdict']
+                        return nr
+            return {'reproduced': False, 'reason': 'no lemma produces obligation %s' % ob['name']}
         from contracts import replay
         return replay.replay(pid, ob, REPO)
     except Exception:
